@@ -169,7 +169,7 @@ func (h H) consistencyCheck(rule string) {
 		}
 	}
 	for _, t := range targets {
-		h.gateAny(rule+" gate", t.name, t.in, match, covered)
+		h.gateFresh(rule+" gate", t.name, t.in, match, covered)
 	}
 	h.C.Floor(rule+" (gated sites)", len(targets), 4)
 	// the deferred closure (flush + commit) is registered only after the check
@@ -177,7 +177,7 @@ func (h H) consistencyCheck(rule string) {
 		core.Instrs(fn, func(in ssa.Instruction) {
 			if df, ok := in.(*ssa.Defer); ok {
 				if mc, ok := df.Call.Value.(*ssa.MakeClosure); ok && mc.Fn == d {
-					h.gateAny(rule+" gate", "(*Raft).onAppendEntriesRequest defer "+h.name(d), df, match, covered)
+					h.gateFresh(rule+" gate", "(*Raft).onAppendEntriesRequest defer "+h.name(d), df, match, covered)
 				}
 			}
 		})
@@ -256,7 +256,7 @@ func (h H) storageCacheCoherence(rule string) {
 		}
 		n++
 		key := "(*storage).appendEntry path[" + t.Describe() + "]"
-		iA := evIndex(t, isCall("log.(*Log).Append"))
+		iA := evIndex(t, isCall("(*log.Log).Append"))
 		iI := evIndex(t, isStoreTo("storage.lastLogIndex"))
 		iT := evIndex(t, isStoreTo("storage.lastLogTerm"))
 		iE := evIndex(t, func(e core.Event) bool { return strings.HasSuffix(e.Callee, ".encode") })
@@ -283,7 +283,7 @@ func (h H) storageCacheCoherence(rule string) {
 		}
 		n++
 		key := "(*storage).removeGTE path[" + t.Describe() + "]"
-		iR := evIndex(t, isCall("log.(*Log).RemoveGTE"))
+		iR := evIndex(t, isCall("(*log.Log).RemoveGTE"))
 		iI := evIndex(t, isStoreTo("storage.lastLogIndex"))
 		iT := evIndex(t, isStoreTo("storage.lastLogTerm"))
 		ok := iR >= 0 && iI > iR && iT > iR && t.Events[iR].Args[1] == "$1" && t.Events[iI].Args[1] == "($1 - 1)" && t.Events[iT].Args[1] == "$2" &&
@@ -301,7 +301,7 @@ func (h H) storageCacheCoherence(rule string) {
 		}
 		n++
 		key := "(*storage).clearLog path[" + t.Describe() + "]"
-		iR := evIndex(t, isCall("log.(*Log).Reset"))
+		iR := evIndex(t, isCall("(*log.Log).Reset"))
 		iI := evIndex(t, isStoreTo("storage.lastLogIndex"))
 		iT := evIndex(t, isStoreTo("storage.lastLogTerm"))
 		ok := iR >= 0 && iI > iR && iT > iR && t.Events[iR].Args[1] == "storage.snaps.index" && t.Events[iI].Args[1] == "storage.snaps.index" && t.Events[iT].Args[1] == "storage.snaps.term"
